@@ -32,6 +32,7 @@ type jev struct {
 }
 
 type jstate struct {
+	params map[string]int
 	vars   map[string]jv
 	trace  []jev
 	nret   int
@@ -220,12 +221,26 @@ func (s *jstate) evalExpr(e js.IExpr) (jv, bool) {
 		return jv{}, false
 	case *js.CallExpr:
 		callee, ok := x.X.(*js.Var)
-		if !ok || x.Optional {
+		if !ok {
 			s.unsupp = true
 			return jv{}, false
 		}
 		name := string(callee.Name())
-		if name != "f" && name != "g" {
+		if cv, isParam := s.vars[name]; isParam && s.params[name] > 0 {
+			// call of a parameter value: nullish callee: undefined for an optional call (arguments are not evaluated),
+			// TypeError otherwise; other non-callable values are outside the fragment
+			if jNullish(cv) {
+				if x.Optional {
+					return jv{jU, 0}, false
+				}
+				return jv{jO, 9}, true
+			}
+			if cv.t != jO {
+				s.unsupp = true
+				return jv{}, false
+			}
+			name = "call.p" + string(rune('0'+s.params[name]))
+		} else if x.Optional || name != "f" && name != "g" {
 			s.unsupp = true
 			return jv{}, false
 		}
@@ -375,7 +390,7 @@ func jRun(src []byte, params [3]jv) (st *jstate, kind int, val jv, ok bool) {
 	if !isF || len(fd.Params.List) > 3 {
 		return nil, 0, jv{}, false
 	}
-	st = &jstate{vars: map[string]jv{}}
+	st = &jstate{vars: map[string]jv{}, params: map[string]int{}}
 	st.vars["x"] = jv{jU, 0}
 	st.vars["y"] = jv{jU, 0}
 	for i, p := range fd.Params.List {
@@ -384,6 +399,7 @@ func jRun(src []byte, params [3]jv) (st *jstate, kind int, val jv, ok bool) {
 			return nil, 0, jv{}, false
 		}
 		st.vars[string(v.Name())] = params[i]
+		st.params[string(v.Name())] = i + 1
 	}
 	jHoist(fd.Body.List, st)
 	kind, val = st.evalList(fd.Body.List)
@@ -497,7 +513,15 @@ func (g *jgen) exprP(depth, need int, out []byte) []byte {
 func jSymParams() [3]jv {
 	var p [3]jv
 	for i := range p {
-		p[i] = jv{vByteRange("p"+string(rune('0'+i))+"t", 0, jB), vByteRange("p"+string(rune('0'+i))+"n", 0, 1)}
+		hi := byte(jB)
+		if i == 2 {
+			hi = jB + 1 // the third parameter may also be an object (a callable one, when it is called)
+		}
+		t := vByteRange("p"+string(rune('0'+i))+"t", 0, hi)
+		if t == jB+1 {
+			t = jO
+		}
+		p[i] = jv{t, vByteRange("p"+string(rune('0'+i))+"n", 0, 1)}
 	}
 	return p
 }
@@ -552,7 +576,7 @@ func verifJSProgram(body []byte, version int) {
 			return false
 		}
 		vAssert(has(orig, "??") || !has(out, "??"), "no ?? for targets older than ES2020")
-		vAssert(!has(out, "?."), "no ?. for targets older than ES2020")
+		vAssert(has(orig, "?.") || !has(out, "?."), "no ?. for targets older than ES2020")
 	}
 	vReach("end")
 }
@@ -670,6 +694,7 @@ var jNullishPatterns = []string{
 	"x=(a==null?undefined:a.p);", "x=(a!=null?a.p:undefined);", "x=(a===null||a===undefined?undefined:a.p);", "x=(a==null?b:a);", "x=(a!=null?a:b);",
 	"x=(a===undefined||a===null?b:a);", "x=(a==null?void 0:a.p);", "x=(a==null?undefined:f(a));", "if(a==null)x=b;else x=a;", "x=(a??b);", "x=(a?a:b);", "x=(a?b:a);",
 	"x=Math.pow(a,b);", "x=(a==null?undefined:a.p.q);",
+	"x=a?c?.(b):c(a);", "x=a?c(b):c?.(a);", "x=a?c?.(b):c?.(a);", "x=a?c(b):c(a);", "x=(c==null?undefined:c(a));", "x=a?b?.p:b.p;", "x=a?b.p:b?.p;",
 }
 
 // VerifJSNullish (C16 version gates + C01): nullish / optional-chaining rewrite patterns for the targets ES5, ES2015,
@@ -695,7 +720,7 @@ func VerifJSNullish(n int) {
 	}
 	if version != 0 && version < 2020 {
 		vAssert(has(orig, "??") || !has(out, "??"), "no ?? for targets older than ES2020")
-		vAssert(!has(out, "?."), "no ?. for targets older than ES2020")
+		vAssert(has(orig, "?.") || !has(out, "?."), "no ?. for targets older than ES2020")
 	}
 	if version != 0 && version < 2016 {
 		vAssert(!has(out, "**"), "no ** for targets older than ES2016")
